@@ -355,6 +355,21 @@ def check_batch_faults(ctx):
             if not compare(ctx, "C13", "batch", "fault_others", got, want, dict(wit, file="%d.pkl" % k)):
                 break
         shutil.rmtree(d, ignore_errors=True)
+    # exactly 256 samples fail: an exit status computed from the failure count must not wrap to 0
+    d = os.path.join(ctx.tmp, "fault-256")
+    for k in range(256):
+        os.makedirs(os.path.join(d, "%d.pkl" % k))
+    o = {"protocol": 2, "seed": 78, "min": 5, "max": 10}
+    r = run_cli(ctx, cli_argv(o, ["--dir", d, "--samples", "300"]))
+    ctx.evaluations += 1
+    ctx.count("batch_fault_injections")
+    written = [k for k in range(300) if os.path.isfile(os.path.join(d, "%d.pkl" % k))]
+    if r.returncode == 0:
+        ctx.violate("C13", "C13:batch:fault_exit0", "batch mode exited 0 although 256 of 300 samples could not be written (%d files present)" % len(written),
+                    {"frontend": "batch", "fault": "directories named 0.pkl..255.pkl pre-created", "options": o, "samples": 300})
+    if written != list(range(256, 300)):
+        ctx.violate("C13", "C13:batch:file_set", "with 256 unwritable samples, the other 44 files were not all written", {"frontend": "batch", "options": o})
+    shutil.rmtree(d, ignore_errors=True)
     # existing output directory is reused
     d = os.path.join(ctx.tmp, "exists")
     os.makedirs(d)
